@@ -591,7 +591,7 @@ func init() {
 			out = append(out, cs("VH_C20", 3, 2, 0, 1, 1, 0, 3, 0, 1, 1, 0, 3, 0, 1, 1, 0, 0))
 			out = append(out, cs("VH_C20", 3, 2, 0, 1, 1, 0, 5, 0, 1, 1, 0, 2))
 			out = append(out, cs("VH_C20", 2, 2, 3, 1, 1, 0, 3, 0, 1, 0, 0, 0))
-			for k := 0; k <= 12; k++ {
+			for k := 0; k <= 13; k++ {
 				out = append(out, cs("VH_C20_Named", k))
 			}
 			n := q(tier, 80, 500)
